@@ -56,7 +56,7 @@ def name_coercion(k: int, i0: int, i1: int, i2: int, i3: int) -> bool:
 
 def name_injective(k: int, i0: int, i1: int, i2: int, j: int, m0: int, m1: int, m2: int) -> bool:
     """
-    pre: 1 <= k <= 3 and 1 <= j <= 3
+    pre: 1 <= k <= 2 and 1 <= j <= 3 and (j <= 2 or m2 == m1)
     pre: 0 <= i0 < NA and 0 <= i1 < NA and 0 <= i2 < NA and 0 <= m0 < NA and 0 <= m1 < NA and 0 <= m2 < NA
     pre: FIRST is None or i0 == FIRST
     post: _
